@@ -135,6 +135,7 @@ LinkedAdapterT = ObjT("LinkedAdapter", front_adapter=MatchableT, back_adapter=Ma
 
 @contract("adapters.py", "LinkedAdapter.match_to", props=["C09"])
 def linked_match_to(c):
+    c.runtime = {"module": "cmods", "name": "linked", "replay_count": 6000}
     c.types(self=LinkedAdapterT, sequence=Str)
     c.returns(OptT(ObjT("LinkedMatch")))
     c.spec(mt_spec)
@@ -158,6 +159,7 @@ def linked_match_to(c):
 
 @contract("adapters.py", "LinkedMatch.score", props=["C09"], name="LinkedMatch.score")
 def linked_score(c):
+    c.runtime = {"module": "cmods", "name": "linked", "replay_count": 6000}
     from .shapes import LinkedT
     c.types(self=LinkedT)
     c.returns(Int)
@@ -169,6 +171,7 @@ def linked_score(c):
 
 @contract("adapters.py", "LinkedMatch.errors", props=["C09"], name="LinkedMatch.errors")
 def linked_errors(c):
+    c.runtime = {"module": "cmods", "name": "linked", "replay_count": 6000}
     from .shapes import LinkedT
     c.types(self=LinkedT)
     c.returns(Int)
